@@ -1,5 +1,9 @@
 """In-process observation of every draw request (harness side; nothing in /repo is touched):
-wraps RandomnessStream.get_draw at class level before any stream exists."""
+wraps RandomnessStream.get_draw at class level before any stream exists.
+
+One entry per request: [stream key, clock (ns or ticks), additional key, n, index digest, value digest, initializes_crn,
+index labels (requests of at most 64 simulants), values as hex (same)]. The labels and values let the check recompute
+the draws from the CONFIGURATION alone (seed, stream key, clock, additional key)."""
 import hashlib
 
 from . import impl
@@ -19,9 +23,13 @@ def install():
     def get_draw(self, index, additional_key=None):
         out = orig(self, index, additional_key)
         t = self.clock()
+        small = len(index) <= 64
         LOG.append([self.key, str(int(t.value)) if hasattr(t, "value") else str(t), str(additional_key), len(index),
                     hashlib.sha1(",".join(map(str, index)).encode()).hexdigest()[:10],
-                    hashlib.sha1(",".join(float(v).hex() for v in out).encode()).hexdigest()[:10]])
+                    hashlib.sha1(",".join(float(v).hex() for v in out).encode()).hexdigest()[:10],
+                    bool(self.initializes_crn_attributes),
+                    [int(i) for i in index] if small else None,
+                    [float(v).hex() for v in out] if small else None])
         return out
 
     get_draw.__wrapped__ = orig
